@@ -113,7 +113,7 @@ func (gs *groupState) ev(member, kind string, m map[string][]int32) {
 	gs.mu.Lock()
 	gs.evs = append(gs.evs, ownEvent{seq: gs.s.Seq(), member: member, kind: kind, parts: parts, at: gs.s.Now()})
 	gs.mu.Unlock()
-	gs.s.Logf("OWN %s %s %v", member, kind, parts)
+	gs.s.Logf("OWN %s %s %v (event %d)", member, kind, parts, gs.s.Seq())
 }
 
 func balancerOpt(mode int64) kgo.Opt {
@@ -260,6 +260,9 @@ func (gs *groupState) pollLoop(m *gmember, script []plan.Op, pattern []plan.Op) 
 		gs.mu.Lock()
 		pr.ret = s.Seq()
 		gs.mu.Unlock()
+		if n := fs.NumRecords(); n > 0 {
+			s.Logf("POLL %s started at event %d returned %d records at event %d", m.name, pr.start, n, pr.ret)
+		}
 		if fs.IsClientClosed() {
 			if gs.block {
 				// contract: every poll that returned a non-empty Fetches
@@ -1209,6 +1212,54 @@ func (gs *groupState) judge(admin *RawCli, logs map[tpKey]*RefLog) {
 					}
 				}
 				s.Probe("poll_with_records_then_allow")
+			}
+		}
+	}
+	// ownership as the application sees it: a poll that STARTED after the
+	// member's revoke/lost callback for a partition returned, with no
+	// assignment of it since, returns no record of that partition (a member
+	// that "revoked" but keeps fetching consumes next to the new owner)
+	if !gs.defaults {
+		for _, m := range gs.members {
+			last := map[tpKey]*ownEvent{}
+			ei := 0
+			var evs []*ownEvent
+			for i := range gs.evs {
+				if e := &gs.evs[i]; e.member == m.name && (e.kind == "assign-enter" || e.kind == "revoke-exit" || e.kind == "lost-exit") {
+					evs = append(evs, e)
+				}
+			}
+			for _, pr := range m.polls {
+				for ei < len(evs) && evs[ei].seq < pr.start {
+					for _, k := range evs[ei].parts {
+						last[k] = evs[ei]
+					}
+					ei++
+				}
+				for _, r := range pr.recs {
+					k := tpKey{r.topic, r.part}
+					e := last[k]
+					if e == nil || e.kind == "assign-enter" {
+						continue
+					}
+					// assigned again while the poll was waiting?
+					again := false
+					for j := ei; j < len(evs) && evs[j].seq < pr.ret; j++ {
+						if evs[j].kind == "assign-enter" {
+							for _, ek := range evs[j].parts {
+								again = again || ek == k
+							}
+						}
+					}
+					if !again {
+						cls := "C07/consumed-after-revoke"
+						if s.P.Prop == "C27" {
+							cls = "C27/handoff/consumed-after-revoke"
+						}
+						s.Violf(cls, "%s: a poll that started at event %d returned %s/%d@%d although the member's %s for that partition had returned at event %d and it was not assigned again", m.name, pr.start, r.topic, r.part, r.off, strings.TrimSuffix(e.kind, "-exit"), e.seq)
+						break
+					}
+				}
 			}
 		}
 	}
